@@ -101,11 +101,15 @@ func solveOne(u *Unit, ob *Obligation, cfg *SolverCfg, idx int) {
 	file := filepath.Join(cfg.Dir, fmt.Sprintf("ob%04d.smt2", idx))
 	os.WriteFile(file, []byte(u.queryText(ob, nil)), 0o644)
 	ob.File = file
-	ctx, cancel := context.WithTimeout(context.Background(), time.Duration(cfg.TimeoutS+2)*time.Second)
+	tmo := cfg.TimeoutS
+	if ob.Kind == "vacuity" && tmo > 3 {
+		tmo = 3
+	}
+	ctx, cancel := context.WithTimeout(context.Background(), time.Duration(tmo+2)*time.Second)
 	defer cancel()
 	ch := make(chan solveResult, len(cfg.Solvers))
 	for _, s := range cfg.Solvers {
-		go func(s string) { ch <- runSolver(ctx, s, file, cfg.TimeoutS, cfg.Seed) }(s)
+		go func(s string) { ch <- runSolver(ctx, s, file, tmo, cfg.Seed) }(s)
 	}
 	var results []solveResult
 	final := solveResult{res: "timeout"}
